@@ -1,4 +1,5 @@
-import JPV.Lemmas.RunGoBase
+import JPV.Lemmas.RunGoSim
+import JPV.Lemmas.RunGoMemo
 import JPV.Peg.RunGoNum
 /-!
 # The COMPOSITION: rule functions executed on the regenerated runtime compute `Peg.run` (worker L30)
@@ -8,15 +9,22 @@ runtime state `RT`, calling the REGENERATED closures `add / memoize / memoizedRe
 Gen/PegRuntimeGo.lean. This file proves that `runGo` computes `Peg.run` — for EVERY grammar and numbering, hence for
 `Gen.goGrammar` (the decompiled rule functions, `PegGo_equiv`: equivalent to the grammar).
 
-  * memo OFF (`disableMemoize = true`, table empty) — PROVED in full: `RG_sim`, `RG_run_ok`, `RG_run_fail`,
-    `RG_rule_fail_restores`, `RG_parse_nomemo`, `RG_go_parse_nomemo`.
-  * memo ON — `RG_memo_full` is the statement, kept visible as a `def … : Prop`; proved: the one-step laws at the level
-    of the rule-function template (`RG_memo_store_replay_ok_partial`, `RG_memo_store_replay_fail_partial`: what the success /
-    failure tail of a rule function stores is replayed by a later hit as the same outcome, the same exit position and the
-    same token segment, at whatever tokenIndex the hit happens, tokens below untouched). Missing for the full
-    statement: the induction carrying the table invariant "every stored entry equals what a rerun produces" through
-    `runGo` (as `runM_spec` does for `runM`), including that a replayed segment of `Tok`s whose positions are absolute is
-    independent of the entry tokenIndex. Until then C17's fourth comparison (`gorun`, memo ON) is the evidence.
+  * memo OFF (`disableMemoize = true`, table empty): `RG_sim`, `RG_run_ok`, `RG_run_fail`, `RG_rule_fail_restores`,
+    `RG_parse_nomemo`, `RG_go_parse_nomemo`.
+  * memo ON (the table in use, as `Parse` runs): `RG_sim_memo`, `RG_run_ok_memo`, `RG_run_fail_memo` from ANY state whose
+    table is right, `RG_memo_full_holds : RG_memo_full` and `RG_parse_memo_fail` from the `reset` state, `RG_go_parse_memo`
+    for `Gen.goGrammar` / `goNum` (`RG_go_closed`). Invariant (Lemmas/RunGoMemo, `MOn`/`Entry`): every stored entry under
+    (k, pos) is what `run` answers, with SOME fuel, for the rule numbered k + 1 at pos — for a success the exit position is
+    the end of the last stored token, the stored tokens restricted to PegText/Action kinds are `run`'s token list, and
+    there are at most `adds + 1` of them (so the uint32 bound covers a replay). Entries stored with less fuel stay valid
+    (`run_det`, Lemmas/RunGoMono: `run` and `adds` do not change with more fuel once the answer is not `outOfFuel`);
+    entries are position-absolute, so they survive the restores of failed alternatives (the table is never restored);
+    `max` is not in any statement. The one proof is shared: `simG` (Lemmas/RunGoSim) is generic in the memo part of the
+    invariant, only the rule-function template (`RuleStep`: `ruleStep_off` here, `ruleStep_on` in Lemmas/RunGoMemo) differs.
+    Grammars must be `Closed`: an undefined rule name gets number 0 and key 0 − 1 = 0 would collide with `expression`.
+  * `RG_named_token_invisible`: a token of a named rule (number below `ruleAction0`) anywhere in the tree does not
+    change the stream `Execute()` sees — the `add(rule<X>, …)` of INLINED named rules, which `runGo` does not perform
+    because the decompiled `PE` has no marker for them, cannot change any conclusion about `stream`.
 
 Hypotheses (all explicit): `Good` = buffer is the runes of the input followed by the end symbol (no rune equals it:
 `runes_lt`, because a `Char` is below 1114112), `tokenIndex ≤ len(tree)`, memo off and table empty;
@@ -30,452 +38,94 @@ namespace JPV
 namespace RunGoGen
 open JPV.Peg JPV.Peg.Runtime JPV.Gen.PegRuntime JPV.Peg.RunGo JPV.PegRuntimeGen
 
-/-- what `runGo` does when `Peg.run` succeeds -/
-def OkSpec (g : Grammar) (n : Num) (input : Array Char) (f : Nat) (e : PE) (s : RT) (p' : Nat) (toks : List Peg.Tok) : Prop :=
-  ∃ s', runGo g n f e s = (.ok, s') ∧ s'.position = p' ∧ p' ≤ input.size ∧
-    Post input s s' (adds g f e input s.position) ∧ n.kinds (seg s.tokenIndex s') = toks
 
-/-- what `runGo` does when `Peg.run` fails -/
-def FailSpec (g : Grammar) (n : Num) (input : Array Char) (f : Nat) (e : PE) (s : RT) : Prop :=
-  ∃ s', runGo g n f e s = (.fail, s') ∧ Post input s s' (adds g f e input s.position)
+/-- the rule-function template with memoisation off: every lookup misses, `memoize` does nothing -/
+theorem ruleStep_off {g : Grammar} {n : Num} {input : Array Char} (hw : Num.WF n) :
+    RuleStep MOff (fun _ => True) g n input := by
+  intro f ih name s _ hg hp hb
 
-def Sim (g : Grammar) (n : Num) (input : Array Char) (f : Nat) : Prop :=
-  ∀ e s, Good input s → s.position ≤ input.size → s.tokenIndex + adds g f e input s.position < 4294967296 →
-    (∀ p' toks, run g f e input s.position = .ok p' toks → OkSpec g n input f e s p' toks) ∧
-    (run g f e input s.position = .fail → FailSpec g n input f e s)
-
-variable {g : Grammar} {n : Num} {input : Array Char}
-
-theorem sim_seq {f : Nat} (ih : Sim g n input f) (a b : PE) (s : RT) (hg : Good input s) (hp : s.position ≤ input.size)
-    (hb : s.tokenIndex + adds g (f + 1) (.seq a b) input s.position < 4294967296) :
-    (∀ p' toks, run g (f + 1) (.seq a b) input s.position = .ok p' toks → OkSpec g n input (f + 1) (.seq a b) s p' toks) ∧
-    (run g (f + 1) (.seq a b) input s.position = .fail → FailSpec g n input (f + 1) (.seq a b) s) := by
   simp only [adds] at hb
-  have iha := ih a s hg hp (by omega)
-  cases ha : run g f a input s.position with
-  | outOfFuel => simp [run, ha]
-  | fail =>
-    obtain ⟨s1, e1, post1⟩ := iha.2 ha
-    refine ⟨by simp [run, ha], fun _ => ⟨s1, by simp only [runGo, e1], ?_⟩⟩
-    simp only [adds, ha]; exact post1.mono (by omega)
-  | ok p1 t1 =>
-    obtain ⟨s1, e1, hp1, hle1, post1, k1⟩ := iha.1 p1 t1 ha
-    subst hp1
-    simp only [ha] at hb
-    have ihb := ih b s1 post1.good hle1 (by have := post1.hi; omega)
-    cases hbb : run g f b input s1.position with
-    | outOfFuel => simp [run, ha, hbb]
-    | fail =>
-      obtain ⟨s2, e2, post2⟩ := ihb.2 hbb
-      refine ⟨by simp [run, ha, hbb], fun _ => ⟨s2, by simp only [runGo, e1, e2], ?_⟩⟩
-      simp only [adds, ha]; exact (post1.trans post2).1
-    | ok p2 t2 =>
-      obtain ⟨s2, e2, hp2, hle2, post2, k2⟩ := ihb.1 p2 t2 hbb
-      refine ⟨?_, by simp [run, ha, hbb]⟩
-      intro p' toks hr
-      simp only [run, ha, hbb, Result.ok.injEq] at hr
-      obtain ⟨rfl, rfl⟩ := hr
-      refine ⟨s2, by simp only [runGo, e1, e2], hp2, hle2, ?_, ?_⟩
-      · simp only [adds, ha]; exact (post1.trans post2).1
-      · rw [(post1.trans post2).2, kinds_append, k1, k2]
-
-theorem kinds_nil (n : Num) : n.kinds [] = [] := rfl
-
-/-- continuing from the state a failure label restored -/
-theorem via_restore {s s1 : RT} {k : Nat} (post1 : Post input s s1 k) :
-    Good input (restore s.position s.tokenIndex s1) ∧ (restore s.position s.tokenIndex s1).position = s.position ∧
-    (restore s.position s.tokenIndex s1).tokenIndex = s.tokenIndex ∧
-    ∀ s2 k2, Post input (restore s.position s.tokenIndex s1) s2 k2 →
-      Post input s s2 k2 ∧ seg s.tokenIndex s2 = seg s.tokenIndex s2 := by
-  refine ⟨(post1.restore 0).good, rfl, rfl, ?_⟩
-  intro s2 k2 h2
-  have := (post1.restore 0).trans h2
-  exact ⟨this.1.mono (by omega), rfl⟩
-
-/-- the state a failure label restored, as an OkSpec witness with no tokens -/
-theorem ok_restored {f : Nat} {e : PE} {s s1 : RT} {k : Nat} (post1 : Post input s s1 k) (hp : s.position ≤ input.size)
-    (hr : runGo g n f e s = (.ok, restore s.position s.tokenIndex s1)) : OkSpec g n input f e s s.position [] :=
-  ⟨_, hr, rfl, hp, post1.restore _, by rw [seg_restore]; rfl⟩
-
-theorem sim_alt {f : Nat} (ih : Sim g n input f) (a b : PE) (s : RT) (hg : Good input s) (hp : s.position ≤ input.size)
-    (hb : s.tokenIndex + adds g (f + 1) (.alt a b) input s.position < 4294967296) :
-    (∀ p' toks, run g (f + 1) (.alt a b) input s.position = .ok p' toks → OkSpec g n input (f + 1) (.alt a b) s p' toks) ∧
-    (run g (f + 1) (.alt a b) input s.position = .fail → FailSpec g n input (f + 1) (.alt a b) s) := by
-  simp only [adds] at hb
-  have iha := ih a s hg hp (by omega)
-  cases ha : run g f a input s.position with
-  | outOfFuel => simp [run, ha]
-  | ok p1 t1 =>
-    obtain ⟨s1, e1, hp1, hle1, post1, k1⟩ := iha.1 p1 t1 ha
-    refine ⟨?_, by simp [run, ha]⟩
-    intro p' toks hr
-    simp only [run, ha, Result.ok.injEq] at hr
-    obtain ⟨rfl, rfl⟩ := hr
-    refine ⟨s1, by simp only [runGo, e1], hp1, hle1, ?_, k1⟩
-    simp only [adds, ha]; exact post1.mono (by omega)
-  | fail =>
-    obtain ⟨s1, e1, post1⟩ := iha.2 ha
-    simp only [ha] at hb
-    have hrun : runGo g n (f + 1) (.alt a b) s = runGo g n f b (restore s.position s.tokenIndex s1) := by
-      simp only [runGo, e1]
-    obtain ⟨hgr, hq, ht, hvia⟩ := via_restore post1
-    generalize restore s.position s.tokenIndex s1 = sr at *
-    have ihb := ih b sr hgr (by omega) (by rw [hq, ht]; have := post1.hi; omega)
-    simp only [OkSpec, FailSpec, hq] at ihb
-    constructor
-    · intro p' toks hr
-      simp only [run, ha] at hr
-      obtain ⟨s2, e2, hp2, hle2, post2, k2⟩ := ihb.1 p' toks hr
-      refine ⟨s2, by rw [hrun, e2], hp2, hle2, ?_, by rw [← ht]; exact k2⟩
-      simp only [adds, ha]; exact (hvia s2 _ post2).1.mono (by omega)
-    · intro hr
-      simp only [run, ha] at hr
-      obtain ⟨s2, e2, post2⟩ := ihb.2 hr
-      refine ⟨s2, by rw [hrun, e2], ?_⟩
-      simp only [adds, ha]; exact (hvia s2 _ post2).1.mono (by omega)
-
-theorem sim_star {f : Nat} (ih : Sim g n input f) (a : PE) (s : RT) (hg : Good input s) (hp : s.position ≤ input.size)
-    (hb : s.tokenIndex + adds g (f + 1) (.star a) input s.position < 4294967296) :
-    (∀ p' toks, run g (f + 1) (.star a) input s.position = .ok p' toks → OkSpec g n input (f + 1) (.star a) s p' toks) ∧
-    (run g (f + 1) (.star a) input s.position = .fail → FailSpec g n input (f + 1) (.star a) s) := by
-  simp only [adds] at hb
-  have iha := ih a s hg hp (by omega)
-  cases ha : run g f a input s.position with
-  | outOfFuel => simp [run, ha]
-  | fail =>
-    obtain ⟨s1, e1, post1⟩ := iha.2 ha
-    refine ⟨?_, by simp [run, ha]⟩
-    intro p' toks hr
-    simp only [run, ha, Result.ok.injEq] at hr
-    obtain ⟨rfl, rfl⟩ := hr
-    exact ok_restored post1 hp (by simp only [runGo, e1])
-  | ok p1 t1 =>
-    obtain ⟨s1, e1, hp1, hle1, post1, k1⟩ := iha.1 p1 t1 ha
-    subst hp1
-    simp only [ha] at hb
-    have ihb := ih (.star a) s1 post1.good hle1 (by have := post1.hi; omega)
-    cases hbb : run g f (.star a) input s1.position with
-    | outOfFuel => simp [run, ha, hbb]
-    | fail =>
-      obtain ⟨s2, e2, post2⟩ := ihb.2 hbb
-      refine ⟨by simp [run, ha, hbb], fun _ => ⟨s2, by simp only [runGo, e1, e2], ?_⟩⟩
-      simp only [adds, ha]; exact (post1.trans post2).1
-    | ok p2 t2 =>
-      obtain ⟨s2, e2, hp2, hle2, post2, k2⟩ := ihb.1 p2 t2 hbb
-      refine ⟨?_, by simp [run, ha, hbb]⟩
-      intro p' toks hr
-      simp only [run, ha, hbb, Result.ok.injEq] at hr
-      obtain ⟨rfl, rfl⟩ := hr
-      refine ⟨s2, by simp only [runGo, e1, e2], hp2, hle2, ?_, ?_⟩
-      · simp only [adds, ha]; exact (post1.trans post2).1
-      · rw [(post1.trans post2).2, kinds_append, k1, k2]
-
-theorem sim_plus {f : Nat} (ih : Sim g n input f) (a : PE) (s : RT) (hg : Good input s) (hp : s.position ≤ input.size)
-    (hb : s.tokenIndex + adds g (f + 1) (.plus a) input s.position < 4294967296) :
-    (∀ p' toks, run g (f + 1) (.plus a) input s.position = .ok p' toks → OkSpec g n input (f + 1) (.plus a) s p' toks) ∧
-    (run g (f + 1) (.plus a) input s.position = .fail → FailSpec g n input (f + 1) (.plus a) s) := by
-  simp only [adds] at hb
-  have iha := ih a s hg hp (by omega)
-  cases ha : run g f a input s.position with
-  | outOfFuel => simp [run, ha]
-  | fail =>
-    obtain ⟨s1, e1, post1⟩ := iha.2 ha
-    refine ⟨by simp [run, ha], fun _ => ⟨s1, by simp only [runGo, e1], ?_⟩⟩
-    simp only [adds, ha]; exact post1.mono (by omega)
-  | ok p1 t1 =>
-    obtain ⟨s1, e1, hp1, hle1, post1, k1⟩ := iha.1 p1 t1 ha
-    subst hp1
-    simp only [ha] at hb
-    have ihb := ih (.star a) s1 post1.good hle1 (by have := post1.hi; omega)
-    cases hbb : run g f (.star a) input s1.position with
-    | outOfFuel => simp [run, ha, hbb]
-    | fail =>
-      obtain ⟨s2, e2, post2⟩ := ihb.2 hbb
-      refine ⟨by simp [run, ha, hbb], fun _ => ⟨s2, by simp only [runGo, e1, e2], ?_⟩⟩
-      simp only [adds, ha]; exact (post1.trans post2).1
-    | ok p2 t2 =>
-      obtain ⟨s2, e2, hp2, hle2, post2, k2⟩ := ihb.1 p2 t2 hbb
-      refine ⟨?_, by simp [run, ha, hbb]⟩
-      intro p' toks hr
-      simp only [run, ha, hbb, Result.ok.injEq] at hr
-      obtain ⟨rfl, rfl⟩ := hr
-      refine ⟨s2, by simp only [runGo, e1, e2], hp2, hle2, ?_, ?_⟩
-      · simp only [adds, ha]; exact (post1.trans post2).1
-      · rw [(post1.trans post2).2, kinds_append, k1, k2]
-
-theorem sim_opt {f : Nat} (ih : Sim g n input f) (a : PE) (s : RT) (hg : Good input s) (hp : s.position ≤ input.size)
-    (hb : s.tokenIndex + adds g (f + 1) (.opt a) input s.position < 4294967296) :
-    (∀ p' toks, run g (f + 1) (.opt a) input s.position = .ok p' toks → OkSpec g n input (f + 1) (.opt a) s p' toks) ∧
-    (run g (f + 1) (.opt a) input s.position = .fail → FailSpec g n input (f + 1) (.opt a) s) := by
-  simp only [adds] at hb
-  have iha := ih a s hg hp (by omega)
-  cases ha : run g f a input s.position with
-  | outOfFuel => simp [run, ha]
-  | fail =>
-    obtain ⟨s1, e1, post1⟩ := iha.2 ha
-    refine ⟨?_, by simp [run, ha]⟩
-    intro p' toks hr
-    simp only [run, ha, Result.ok.injEq] at hr
-    obtain ⟨rfl, rfl⟩ := hr
-    exact ok_restored post1 hp (by simp only [runGo, e1])
-  | ok p1 t1 =>
-    obtain ⟨s1, e1, hp1, hle1, post1, k1⟩ := iha.1 p1 t1 ha
-    refine ⟨?_, by simp [run, ha]⟩
-    intro p' toks hr
-    simp only [run, ha, Result.ok.injEq] at hr
-    obtain ⟨rfl, rfl⟩ := hr
-    exact ⟨s1, by simp only [runGo, e1], hp1, hle1, by simp only [adds]; exact post1, k1⟩
-
-theorem sim_not {f : Nat} (ih : Sim g n input f) (a : PE) (s : RT) (hg : Good input s) (hp : s.position ≤ input.size)
-    (hb : s.tokenIndex + adds g (f + 1) (.not a) input s.position < 4294967296) :
-    (∀ p' toks, run g (f + 1) (.not a) input s.position = .ok p' toks → OkSpec g n input (f + 1) (.not a) s p' toks) ∧
-    (run g (f + 1) (.not a) input s.position = .fail → FailSpec g n input (f + 1) (.not a) s) := by
-  simp only [adds] at hb
-  have iha := ih a s hg hp (by omega)
-  cases ha : run g f a input s.position with
-  | outOfFuel => simp [run, ha]
-  | fail =>
-    obtain ⟨s1, e1, post1⟩ := iha.2 ha
-    refine ⟨?_, by simp [run, ha]⟩
-    intro p' toks hr
-    simp only [run, ha, Result.ok.injEq] at hr
-    obtain ⟨rfl, rfl⟩ := hr
-    exact ok_restored post1 hp (by simp only [runGo, e1])
-  | ok p1 t1 =>
-    obtain ⟨s1, e1, hp1, hle1, post1, k1⟩ := iha.1 p1 t1 ha
-    exact ⟨by simp [run, ha], fun _ => ⟨s1, by simp only [runGo, e1], by simp only [adds]; exact post1⟩⟩
-
-theorem sim_and {f : Nat} (ih : Sim g n input f) (a : PE) (s : RT) (hg : Good input s) (hp : s.position ≤ input.size)
-    (hb : s.tokenIndex + adds g (f + 1) (.and a) input s.position < 4294967296) :
-    (∀ p' toks, run g (f + 1) (.and a) input s.position = .ok p' toks → OkSpec g n input (f + 1) (.and a) s p' toks) ∧
-    (run g (f + 1) (.and a) input s.position = .fail → FailSpec g n input (f + 1) (.and a) s) := by
-  simp only [adds] at hb
-  have iha := ih a s hg hp (by omega)
-  cases ha : run g f a input s.position with
-  | outOfFuel => simp [run, ha]
-  | fail =>
-    obtain ⟨s1, e1, post1⟩ := iha.2 ha
-    exact ⟨by simp [run, ha], fun _ => ⟨s1, by simp only [runGo, e1], by simp only [adds]; exact post1⟩⟩
-  | ok p1 t1 =>
-    obtain ⟨s1, e1, hp1, hle1, post1, k1⟩ := iha.1 p1 t1 ha
-    refine ⟨?_, by simp [run, ha]⟩
-    intro p' toks hr
-    simp only [run, ha, Result.ok.injEq] at hr
-    obtain ⟨rfl, rfl⟩ := hr
-    exact ok_restored post1 hp (by simp only [runGo, e1])
-
-theorem sim_cap (hw : Num.WF n) (hn : input.size + 1 < 4294967296) {f : Nat} (ih : Sim g n input f) (a : PE) (s : RT) (hg : Good input s) (hp : s.position ≤ input.size)
-    (hb : s.tokenIndex + adds g (f + 1) (.cap a) input s.position < 4294967296) :
-    (∀ p' toks, run g (f + 1) (.cap a) input s.position = .ok p' toks → OkSpec g n input (f + 1) (.cap a) s p' toks) ∧
-    (run g (f + 1) (.cap a) input s.position = .fail → FailSpec g n input (f + 1) (.cap a) s) := by
-  simp only [adds] at hb
-  have iha := ih a s hg hp (by omega)
-  cases ha : run g f a input s.position with
-  | outOfFuel => simp [run, ha]
-  | fail =>
-    obtain ⟨s1, e1, post1⟩ := iha.2 ha
-    refine ⟨by simp [run, ha], fun _ => ⟨s1, by simp only [runGo, e1], ?_⟩⟩
-    simp only [adds]; exact post1.mono (by omega)
-  | ok p1 t1 =>
-    obtain ⟨s1, e1, hp1, hle1, post1, k1⟩ := iha.1 p1 t1 ha
-    subst hp1
-    obtain ⟨s2, ea, post2, hp2, hseg⟩ := add_post (input := input) n.text s.position post1.good (by have := post1.hi; omega)
-    refine ⟨?_, by simp [run, ha]⟩
-    intro p' toks hr
-    simp only [run, ha, Result.ok.injEq] at hr
-    obtain ⟨rfl, rfl⟩ := hr
-    refine ⟨s2, by simp only [runGo, e1, addGo, ea], hp2, hle1, by simp only [adds]; exact (post1.trans post2).1, ?_⟩
-    rw [(post1.trans post2).2, kinds_append, k1, hseg, kinds_text]
-
-theorem sim_rule (hw : Num.WF n) (hn : input.size + 1 < 4294967296) {f : Nat} (ih : Sim g n input f) (name : String) (s : RT) (hg : Good input s) (hp : s.position ≤ input.size)
-    (hb : s.tokenIndex + adds g (f + 1) (.rule name) input s.position < 4294967296) :
-    (∀ p' toks, run g (f + 1) (.rule name) input s.position = .ok p' toks → OkSpec g n input (f + 1) (.rule name) s p' toks) ∧
-    (run g (f + 1) (.rule name) input s.position = .fail → FailSpec g n input (f + 1) (.rule name) s) := by
-  simp only [adds] at hb
-  have iha := ih (ruleBody g name) s hg hp (by omega)
-  have hlk : lookup s.memo (n.rule name - 1, s.position) = none := by rw [hg.nomemo]; rfl
+  have iha := ih (ruleBody g name) s trivial hg hp (by omega)
+  have hlk : lookup s.memo (n.rule name - 1, s.position) = none := by rw [hg.mem.2]; rfl
   cases ha : run g f (ruleBody g name) input s.position with
   | outOfFuel => simp [run, ha]
   | fail =>
     obtain ⟨s1, e1, post1⟩ := iha.2 ha
     refine ⟨by simp [run, ha], fun _ => ⟨restore s.position s.tokenIndex s1, ?_, post1.restore _⟩⟩
-    simp only [runGo, hlk, e1, ruleFail, PR_memoize_disabled _ _ _ _ s1 post1.good.off]
+    simp only [runGo, hlk, e1, ruleFail, PR_memoize_disabled _ _ _ _ s1 post1.good.mem.1]
   | ok p1 t1 =>
     obtain ⟨s1, e1, hp1, hle1, post1, k1⟩ := iha.1 p1 t1 ha
     subst hp1
-    obtain ⟨s2, ea, post2, hp2, hseg⟩ := add_post (input := input) (n.rule name) s.position post1.good (by have := post1.hi; omega)
+    obtain ⟨s2, ea, post2, hp2, hseg⟩ := add_post (M := MOff) (input := input) (n.rule name) s.position post1.good (by have := post1.hi; omega)
     refine ⟨?_, by simp [run, ha]⟩
     intro p' toks hr
     simp only [run, ha, Result.ok.injEq] at hr
     obtain ⟨rfl, rfl⟩ := hr
     refine ⟨s2, ?_, hp2, hle1, by simp only [adds]; exact (post1.trans post2).1, ?_⟩
-    · simp only [runGo, hlk, e1, ruleOk, ea, PR_memoize_disabled _ _ _ _ s2 post2.good.off]
+    · simp only [runGo, hlk, e1, ruleOk, ea, PR_memoize_disabled _ _ _ _ s2 post2.good.mem.1]
     · rw [(post1.trans post2).2, kinds_append, k1, hseg, kinds_rule n hw, List.append_nil]
 
-theorem sim_act (hw : Num.WF n) (hn : input.size + 1 < 4294967296) {f : Nat}  (i : Nat) (s : RT) (hg : Good input s) (hp : s.position ≤ input.size)
-    (hb : s.tokenIndex + adds g (f + 1) (.act i) input s.position < 4294967296) :
-    (∀ p' toks, run g (f + 1) (.act i) input s.position = .ok p' toks → OkSpec g n input (f + 1) (.act i) s p' toks) ∧
-    (run g (f + 1) (.act i) input s.position = .fail → FailSpec g n input (f + 1) (.act i) s) := by
-  simp only [adds] at hb
-  obtain ⟨s2, ea, post2, hp2, hseg⟩ := add_post (input := input) (n.act i) s.position hg (by omega)
-  refine ⟨?_, by simp [run]⟩
-  intro p' toks hr
-  simp only [run, Result.ok.injEq] at hr
-  obtain ⟨rfl, rfl⟩ := hr
-  exact ⟨s2, by simp only [runGo, addGo, ea], hp2, hp, by simp only [adds]; exact post2, by rw [hseg, kinds_act n hw]⟩
+theorem scope_true (g : Grammar) : Scope g (fun _ => True) :=
+  ⟨fun _ => ⟨trivial, trivial⟩, fun _ => ⟨trivial, trivial⟩, fun _ => trivial, fun _ => ⟨trivial, trivial⟩,
+   fun _ => trivial, fun _ => trivial, fun _ => trivial, fun _ => trivial, fun _ => trivial⟩
 
-/-- a template that only moved `position` -/
-theorem ok_moved {f : Nat} {e : PE} {s : RT} (hg : Good input s) (q : Nat) (hq : q ≤ input.size)
-    (hr : runGo g n f e s = (.ok, { s with position := q })) : OkSpec g n input f e s q [] :=
-  ⟨_, hr, rfl, hq, (Post.refl hg _).setPos q, by rw [seg_setPos, seg_self hg]; rfl⟩
-
-theorem fail_moved {f : Nat} {e : PE} {s : RT} (hg : Good input s) (q : Nat)
-    (hr : runGo g n f e s = (.fail, { s with position := q })) : FailSpec g n input f e s :=
-  ⟨_, hr, (Post.refl hg _).setPos q⟩
-
-theorem sim_any (hw : Num.WF n) (hn : input.size + 1 < 4294967296) {f : Nat}   (s : RT) (hg : Good input s) (hp : s.position ≤ input.size)
-    (hb : s.tokenIndex + adds g (f + 1) (.any) input s.position < 4294967296) :
-    (∀ p' toks, run g (f + 1) (.any) input s.position = .ok p' toks → OkSpec g n input (f + 1) (.any) s p' toks) ∧
-    (run g (f + 1) (.any) input s.position = .fail → FailSpec g n input (f + 1) (.any) s) := by
-  have hd := dot_spec hg hp hn
-  by_cases hlt : s.position < input.size
-  · rw [if_pos hlt] at hd
-    refine ⟨?_, by simp [run, hlt]⟩
-    intro p' toks hr
-    simp only [run, hlt, if_true, Result.ok.injEq] at hr
-    obtain ⟨rfl, rfl⟩ := hr
-    exact ok_moved hg _ (by omega) (by simp only [runGo, hd])
-  · rw [if_neg hlt] at hd
-    exact ⟨by simp [run, hlt], fun _ => fail_moved hg s.position (by simp only [runGo, hd])⟩
-
-theorem sim_lit (hw : Num.WF n) (hn : input.size + 1 < 4294967296) {f : Nat}  (str : String) (s : RT) (hg : Good input s) (hp : s.position ≤ input.size)
-    (hb : s.tokenIndex + adds g (f + 1) (.lit str) input s.position < 4294967296) :
-    (∀ p' toks, run g (f + 1) (.lit str) input s.position = .ok p' toks → OkSpec g n input (f + 1) (.lit str) s p' toks) ∧
-    (run g (f + 1) (.lit str) input s.position = .fail → FailSpec g n input (f + 1) (.lit str) s) := by
-  have hl := lit_spec hn str.toList s hg hp
-  by_cases hm : matchLit input str.toList s.position = true
-  · rw [if_pos hm] at hl
-    refine ⟨?_, by simp [run, hm]⟩
-    intro p' toks hr
-    simp only [run, hm, if_true, Result.ok.injEq] at hr
-    obtain ⟨rfl, rfl⟩ := hr
-    have hlen : str.toList.length = str.length := String.length_toList
-    rw [hlen] at hl
-    exact ok_moved hg _ hl.2 (by simp only [runGo, hl.1])
-  · rw [if_neg hm] at hl
-    obtain ⟨q, hq⟩ := hl
-    exact ⟨by simp [run, hm], fun _ => fail_moved hg q (by simp only [runGo, hq])⟩
-
-theorem sim_cls (hw : Num.WF n) (hn : input.size + 1 < 4294967296) {f : Nat}  (neg : Bool) (rs : List (Char × Char)) (s : RT) (hg : Good input s) (hp : s.position ≤ input.size)
-    (hb : s.tokenIndex + adds g (f + 1) (.cls neg rs) input s.position < 4294967296) :
-    (∀ p' toks, run g (f + 1) (.cls neg rs) input s.position = .ok p' toks → OkSpec g n input (f + 1) (.cls neg rs) s p' toks) ∧
-    (run g (f + 1) (.cls neg rs) input s.position = .fail → FailSpec g n input (f + 1) (.cls neg rs) s) := by
-  have hbuf := bufAt hg hp
-  have hd := dot_spec hg hp hn
-  cases hc : input[s.position]? with
-  | none =>
-    have hlt : ¬ s.position < input.size := by
-      intro h; rw [Array.getElem?_eq_getElem h] at hc; cases hc
-    rw [hc] at hbuf; rw [if_neg hlt] at hd
-    refine ⟨by simp [run, hc], fun _ => fail_moved hg s.position ?_⟩
-    cases neg <;> simp [runGo, clsGo, hbuf, inRangesN_end, hd]
-  | some c =>
-    have hlt : s.position < input.size := by
-      rcases Nat.lt_or_ge s.position input.size with h1 | h1
-      · exact h1
-      · rw [Array.getElem?_eq_none h1] at hc; cases hc
-    rw [hc] at hbuf; rw [if_pos hlt] at hd
-    have hadv : advance s = { s with position := s.position + 1 } := by
-      unfold advance; rw [u32_of_lt (by omega)]
-    have hin := inRanges_eq c rs
-    cases hi : inRangesN c.toNat rs <;> cases neg <;> rw [hi] at hin
-    · exact ⟨by simp [run, hc, hin], fun _ => fail_moved hg s.position (by simp [runGo, clsGo, hbuf, hi])⟩
-    · refine ⟨?_, by simp [run, hc, hin]⟩
-      intro p' toks hr
-      simp [run, hc, hin] at hr
-      obtain ⟨rfl, rfl⟩ := hr
-      exact ok_moved hg _ (by omega) (by simp [runGo, clsGo, hbuf, hi, hd])
-    · refine ⟨?_, by simp [run, hc, hin]⟩
-      intro p' toks hr
-      simp [run, hc, hin] at hr
-      obtain ⟨rfl, rfl⟩ := hr
-      exact ok_moved hg _ (by omega) (by simp [runGo, clsGo, hbuf, hi, hadv])
-    · exact ⟨by simp [run, hc, hin], fun _ => fail_moved hg s.position (by simp [runGo, clsGo, hbuf, hi])⟩
-
-/-- SIMULATION, memo off, by induction on the fuel both interpreters share -/
+/-- SIMULATION, memo off, every expression -/
 theorem RG_sim (g : Grammar) (n : Num) (hw : Num.WF n) (input : Array Char) (hn : input.size + 1 < 4294967296) :
-    ∀ f, Sim g n input f := by
-  intro f
-  induction f with
-  | zero => intro e s _ _ _; simp [run]
-  | succ f ih =>
-    intro e s hg hp hb
-    cases e with
-    | lit str => exact sim_lit hw hn str s hg hp hb
-    | cls neg rs => exact sim_cls hw hn neg rs s hg hp hb
-    | any => exact sim_any hw hn s hg hp hb
-    | seq a b => exact sim_seq ih a b s hg hp hb
-    | alt a b => exact sim_alt ih a b s hg hp hb
-    | star a => exact sim_star ih a s hg hp hb
-    | plus a => exact sim_plus ih a s hg hp hb
-    | opt a => exact sim_opt ih a s hg hp hb
-    | not a => exact sim_not ih a s hg hp hb
-    | and a => exact sim_and ih a s hg hp hb
-    | rule name => exact sim_rule hw hn ih name s hg hp hb
-    | cap a => exact sim_cap hw hn ih a s hg hp hb
-    | act i => exact sim_act hw hn i s hg hp hb
+    ∀ f, Sim MOff (fun _ => True) g n input f :=
+  simG hw hn (scope_true g) (ruleStep_off hw)
 
 /-! ## Public statements -/
 
 /-- success: same end position, the tokens added above the entry tokenIndex are — restricted to the PegText/Action
 kinds — the token list of `Peg.run`; tokens below the entry tokenIndex are untouched; the invariant is kept -/
 theorem RG_run_ok (g : Grammar) (n : Num) (hw : Num.WF n) (input : Array Char) (hn : input.size + 1 < 4294967296)
-    (f : Nat) (e : PE) (s : RT) (hg : Good input s) (hp : s.position ≤ input.size)
+    (f : Nat) (e : PE) (s : RT) (hg : Good MOff input s) (hp : s.position ≤ input.size)
     (hb : s.tokenIndex + adds g f e input s.position < 4294967296) (p' : Nat) (toks : List Peg.Tok)
     (hr : run g f e input s.position = .ok p' toks) :
-    ∃ s', runGo g n f e s = (.ok, s') ∧ s'.position = p' ∧ Good input s' ∧
+    ∃ s', runGo g n f e s = (.ok, s') ∧ s'.position = p' ∧ Good MOff input s' ∧
       s'.tree.take s.tokenIndex = s.tree.take s.tokenIndex ∧ s.tokenIndex ≤ s'.tokenIndex ∧
       n.kinds ((s'.tree.take s'.tokenIndex).drop s.tokenIndex) = toks := by
-  obtain ⟨s', h1, h2, _, h4, h5⟩ := (RG_sim g n hw input hn f e s hg hp hb).1 p' toks hr
+  obtain ⟨s', h1, h2, _, h4, h5⟩ := (RG_sim g n hw input hn f e s trivial hg hp hb).1 p' toks hr
   exact ⟨s', h1, h2, h4.good, h4.pre, h4.lo, h5⟩
 
 /-- failure: `runGo` fails too (jumps to the enclosing failure label); tokens below the entry tokenIndex are untouched
 and the pair the enclosing construct restores gives a good state again -/
 theorem RG_run_fail (g : Grammar) (n : Num) (hw : Num.WF n) (input : Array Char) (hn : input.size + 1 < 4294967296)
-    (f : Nat) (e : PE) (s : RT) (hg : Good input s) (hp : s.position ≤ input.size)
+    (f : Nat) (e : PE) (s : RT) (hg : Good MOff input s) (hp : s.position ≤ input.size)
     (hb : s.tokenIndex + adds g f e input s.position < 4294967296)
     (hr : run g f e input s.position = .fail) :
     ∃ s', runGo g n f e s = (.fail, s') ∧ s'.tree.take s.tokenIndex = s.tree.take s.tokenIndex ∧
-      Good input (restore s.position s.tokenIndex s') := by
-  obtain ⟨s', h1, h2⟩ := (RG_sim g n hw input hn f e s hg hp hb).2 hr
+      Good MOff input (restore s.position s.tokenIndex s') := by
+  obtain ⟨s', h1, h2⟩ := (RG_sim g n hw input hn f e s trivial hg hp hb).2 hr
   exact ⟨s', h1, h2.pre, (h2.restore 0).good⟩
 
 /-- a failing RULE FUNCTION returns with position and tokenIndex restored -/
 theorem RG_rule_fail_restores (g : Grammar) (n : Num) (hw : Num.WF n) (input : Array Char) (hn : input.size + 1 < 4294967296)
-    (f : Nat) (name : String) (s : RT) (hg : Good input s) (hp : s.position ≤ input.size)
+    (f : Nat) (name : String) (s : RT) (hg : Good MOff input s) (hp : s.position ≤ input.size)
     (hb : s.tokenIndex + adds g f (.rule name) input s.position < 4294967296)
     (hr : run g f (.rule name) input s.position = .fail) :
     ∃ s', runGo g n f (.rule name) s = (.fail, s') ∧ s'.position = s.position ∧ s'.tokenIndex = s.tokenIndex ∧
-      Good input s' ∧ s'.tree.take s.tokenIndex = s.tree.take s.tokenIndex := by
+      Good MOff input s' ∧ s'.tree.take s.tokenIndex = s.tree.take s.tokenIndex := by
   cases f with
   | zero => simp [run] at hr
   | succ f =>
     simp only [adds] at hb
     simp only [run] at hr
-    obtain ⟨s1, e1, post1⟩ := (RG_sim g n hw input hn f (ruleBody g name) s hg hp (by omega)).2 hr
-    have hlk : lookup s.memo (n.rule name - 1, s.position) = none := by rw [hg.nomemo]; rfl
+    obtain ⟨s1, e1, post1⟩ := (RG_sim g n hw input hn f (ruleBody g name) s trivial hg hp (by omega)).2 hr
+    have hlk : lookup s.memo (n.rule name - 1, s.position) = none := by rw [hg.mem.2]; rfl
     refine ⟨restore s.position s.tokenIndex s1, ?_, rfl, rfl, (post1.restore 0).good, (post1.restore 0).pre⟩
-    simp only [runGo, hlk, e1, ruleFail, PR_memoize_disabled _ _ _ _ s1 post1.good.off]
+    simp only [runGo, hlk, e1, ruleFail, PR_memoize_disabled _ _ _ _ s1 post1.good.mem.1]
 
-/-- `reset()` on the state `Init` builds: a good state at position 0, tokenIndex 0 -/
-theorem RG_reset_good (input : Array Char) :
-    ∃ s0, reset (initRT input true) = some s0 ∧ Good input s0 ∧ s0.position = 0 ∧ s0.tokenIndex = 0 := by
+/-- `reset()` on the state `Init` builds, for either setting of the switch -/
+theorem reset_init (input : Array Char) (d : Bool) :
+    ∃ s0, reset (initRT input d) = some s0 ∧ s0.buffer = runes input ++ [endSymbol] ∧ s0.position = 0 ∧ s0.tokenIndex = 0 ∧
+      s0.tree = [] ∧ s0.memo = [] ∧ s0.disableMemoize = d := by
   have hr : ∀ r ∈ runes input, r ≠ endSymbol := runes_lt input
   unfold reset initRT
   by_cases hB : runes input = []
   · have hB' : List.map Char.toNat input.toList = [] := hB
     simp only [hB']
-    refine ⟨_, rfl, ⟨?_, Nat.le_refl _, rfl, rfl⟩, rfl, rfl⟩
+    refine ⟨_, rfl, ?_, rfl, rfl, rfl, rfl, rfl⟩
     show _ = runes input ++ [endSymbol]
     rw [hB]
   · have hlast : (runes input).getLast hB ≠ endSymbol := hr _ (List.getLast_mem hB)
@@ -485,7 +135,13 @@ theorem RG_reset_good (input : Array Char) :
     show ∃ s0, (Option.bind (if ((runes input).length : Int) == 0 then some true
         else (getAtI (runes input) (((runes input).length : Int) - 1)).bind fun x3 => some (x3 != endSymbol)) _) = some s0 ∧ _
     simp only [beq_iff_eq, hne, if_false, hgl, Option.bind_some, bne_iff_ne, ne_eq, hlast, not_false_eq_true, if_true]
-    exact ⟨_, rfl, ⟨rfl, Nat.le_refl _, rfl, rfl⟩, rfl, rfl⟩
+    exact ⟨_, rfl, rfl, rfl, rfl, rfl, rfl, rfl⟩
+
+/-- `reset()` on the state `Init` builds: a good state at position 0, tokenIndex 0 -/
+theorem RG_reset_good (input : Array Char) :
+    ∃ s0, reset (initRT input true) = some s0 ∧ Good MOff input s0 ∧ s0.position = 0 ∧ s0.tokenIndex = 0 := by
+  obtain ⟨s0, h0, hb, hp, ht, htr, hm, hd⟩ := reset_init input true
+  exact ⟨s0, h0, ⟨hb, by rw [ht]; exact Nat.zero_le _, ⟨hd, hm⟩⟩, hp, ht⟩
 
 /-- `Parse()` with memoisation disabled: reset, then the start rule function — end position and the token stream
 `Execute()` will see are those of `Peg.run` -/
@@ -546,29 +202,94 @@ example : (match run Gen.goGrammar 60 (.rule "expression") exInput 0, parseGoRul
 
 /-! ## Memo ON -/
 
-/-- the rule names an expression refers to -/
-def refs : PE → List String
-  | .rule name => [name]
-  | .seq a b | .alt a b => refs a ++ refs b
-  | .star a | .plus a | .opt a | .not a | .and a | .cap a => refs a
-  | _ => []
-
-/-- every referenced rule has a body, table rules have distinct non-zero numbers (so the keys `rule − 1` are distinct) -/
-def Closed (g : Grammar) (n : Num) : Prop :=
-  (∀ r ∈ g, ∀ name ∈ refs r.2, name ∈ g.map Prod.fst) ∧
-  (∀ a ∈ g.map Prod.fst, 0 < n.rule a) ∧
-  (∀ a ∈ g.map Prod.fst, ∀ b ∈ g.map Prod.fst, n.rule a = n.rule b → a = b)
-
-/-- THE FULL STATEMENT WITH MEMOISATION ENABLED — NOT PROVED (kept visible; see the header for what is missing):
-from the `reset` state, with the table in use, `Parse()` on the rule functions ends where `Peg.run` ends with the token
-stream of `Peg.run`. Evidence meanwhile: the `gorun` comparison of C17 (memo ON, every generated string) and the
-`example` above. -/
+/-- THE FULL STATEMENT WITH MEMOISATION ENABLED (proved below: `RG_memo_full_holds`): from the `reset` state, with the
+table in use, `Parse()` on the rule functions ends where `Peg.run` ends with the token stream of `Peg.run`, for every
+grammar that is `Closed` (Lemmas/RunGoMemo: every rule reference has a body; table rules have distinct non-zero numbers). -/
 def RG_memo_full : Prop :=
   ∀ (g : Grammar) (n : Num), Num.WF n → Closed g n →
   ∀ (input : Array Char), input.size + 1 < 4294967296 →
   ∀ (f : Nat) (start : String), start ∈ g.map Prod.fst → adds g f (.rule start) input 0 < 4294967296 →
   ∀ (p' : Nat) (toks : List Peg.Tok), run g f (.rule start) input 0 = .ok p' toks →
     ∃ s', parseGo g n f start input false = (.ok, s') ∧ s'.position = p' ∧ stream n s' = toks
+
+/-- SIMULATION, memo ON: from any state whose table is right (`MOn`), on expressions whose references have bodies -/
+theorem RG_sim_memo (g : Grammar) (n : Num) (hw : Num.WF n) (hc : Closed g n) (input : Array Char)
+    (hn : input.size + 1 < 4294967296) : ∀ f, Sim (MOn g n input) (WIn g) g n input f :=
+  simG hw hn (scope_in g n hc) (ruleStep_on hw hc)
+
+/-- memo ON, any good state (table right, possibly non-empty), any expression in scope: success -/
+theorem RG_run_ok_memo (g : Grammar) (n : Num) (hw : Num.WF n) (hc : Closed g n) (input : Array Char)
+    (hn : input.size + 1 < 4294967296) (f : Nat) (e : PE) (he : WIn g e) (s : RT) (hg : Good (MOn g n input) input s)
+    (hp : s.position ≤ input.size) (hb : s.tokenIndex + adds g f e input s.position < 4294967296) (p' : Nat)
+    (toks : List Peg.Tok) (hr : run g f e input s.position = .ok p' toks) :
+    ∃ s', runGo g n f e s = (.ok, s') ∧ s'.position = p' ∧ Good (MOn g n input) input s' ∧
+      s'.tree.take s.tokenIndex = s.tree.take s.tokenIndex ∧ s.tokenIndex ≤ s'.tokenIndex ∧
+      n.kinds ((s'.tree.take s'.tokenIndex).drop s.tokenIndex) = toks := by
+  obtain ⟨s', h1, h2, _, h4, h5⟩ := (RG_sim_memo g n hw hc input hn f e s he hg hp hb).1 p' toks hr
+  exact ⟨s', h1, h2, h4.good, h4.pre, h4.lo, h5⟩
+
+/-- memo ON: failure -/
+theorem RG_run_fail_memo (g : Grammar) (n : Num) (hw : Num.WF n) (hc : Closed g n) (input : Array Char)
+    (hn : input.size + 1 < 4294967296) (f : Nat) (e : PE) (he : WIn g e) (s : RT) (hg : Good (MOn g n input) input s)
+    (hp : s.position ≤ input.size) (hb : s.tokenIndex + adds g f e input s.position < 4294967296)
+    (hr : run g f e input s.position = .fail) :
+    ∃ s', runGo g n f e s = (.fail, s') ∧ s'.tree.take s.tokenIndex = s.tree.take s.tokenIndex ∧
+      Good (MOn g n input) input (restore s.position s.tokenIndex s') := by
+  obtain ⟨s', h1, h2⟩ := (RG_sim_memo g n hw hc input hn f e s he hg hp hb).2 hr
+  exact ⟨s', h1, h2.pre, (h2.restore 0).good⟩
+
+/-- `reset()` with memoisation enabled gives a good state: the table is empty, hence right -/
+theorem RG_reset_good_memo (g : Grammar) (n : Num) (input : Array Char) :
+    ∃ s0, reset (initRT input false) = some s0 ∧ Good (MOn g n input) input s0 ∧ s0.position = 0 ∧ s0.tokenIndex = 0 := by
+  obtain ⟨s0, h0, hb, hp, ht, htr, hm, hd⟩ := reset_init input false
+  refine ⟨s0, h0, ⟨hb, by rw [ht]; exact Nat.zero_le _, ⟨hd, ?_⟩⟩, hp, ht⟩
+  intro k pos m hl
+  rw [hm] at hl
+  cases hl
+
+/-- THE COMPOSITION WITH THE MEMO TABLE IN USE -/
+theorem RG_memo_full_holds : RG_memo_full := by
+  intro g n hw hc input hn f start hst hb p' toks hr
+  obtain ⟨s0, h0, hg, hp0, ht0⟩ := RG_reset_good_memo g n input
+  have he : WIn g (.rule start) := by
+    intro nm hm
+    simp only [refs, List.mem_singleton] at hm
+    rw [hm]; exact hst
+  unfold parseGo
+  rw [h0]
+  obtain ⟨s', h1, h2, _, _, _, h6⟩ := RG_run_ok_memo g n hw hc input hn f (.rule start) he s0 hg (by omega)
+    (by rw [hp0, ht0]; omega) p' toks (by rw [hp0]; exact hr)
+  refine ⟨s', h1, h2, ?_⟩
+  rw [ht0, List.drop_zero] at h6
+  exact h6
+
+/-- a failing `Parse()` with the table in use ends with position and tokenIndex restored -/
+theorem RG_parse_memo_fail (g : Grammar) (n : Num) (hw : Num.WF n) (hc : Closed g n) (input : Array Char)
+    (hn : input.size + 1 < 4294967296) (f : Nat) (start : String) (hst : start ∈ g.map Prod.fst)
+    (hb : adds g f (.rule start) input 0 < 4294967296) (hr : run g f (.rule start) input 0 = .fail) :
+    ∃ s', parseGo g n f start input false = (.fail, s') ∧ s'.position = 0 ∧ s'.tokenIndex = 0 := by
+  obtain ⟨s0, h0, hg, hp0, ht0⟩ := RG_reset_good_memo g n input
+  obtain ⟨_, _, _, _, _, _, hm, _⟩ := reset_init input false
+  have hm0 : s0.memo = [] := by
+    obtain ⟨s0', h0', _, _, _, _, hm', _⟩ := reset_init input false
+    rw [h0] at h0'; cases h0'; exact hm'
+  have he : WIn g (.rule start) := by
+    intro nm hm
+    simp only [refs, List.mem_singleton] at hm
+    rw [hm]; exact hst
+  unfold parseGo
+  rw [h0]
+  cases f with
+  | zero => simp [run] at hr
+  | succ f =>
+    rw [adds_rule] at hb
+    have hr' : run g f (ruleBody g start) input s0.position = .fail := by rw [hp0]; exact hr
+    obtain ⟨s1, e1, post1⟩ := (RG_sim_memo g n hw hc input hn f (ruleBody g start) s0 ((scope_in g n hc).rule he) hg (by omega)
+      (by rw [hp0, ht0]; omega)).2 hr'
+    have hlk : lookup s0.memo (n.rule start - 1, s0.position) = none := by rw [hm0]; rfl
+    have hmz := PR_memoize_false (n.rule start - 1) s0.position s0.tokenIndex s1 post1.good.mem.1
+    exact ⟨restore s0.position s0.tokenIndex { s1 with memo := store s1.memo (n.rule start - 1, s0.position) ⟨false, []⟩ },
+      by simp only [runGo, hlk, e1, ruleFail, hmz], hp0, ht0⟩
 
 /-- ONE STEP, success: what the success tail of a rule function (`add(rule, position0); memoize(N, position0,
 tokenIndex0, true)`) stores is replayed by any later hit (`memoizedResult`) — in ANY state whose table still answers the
@@ -628,6 +349,28 @@ theorem RG_memo_miss (g : Grammar) (n : Num) (f : Nat) (name : String) (s s1 : R
       runGo g n (f + 1) (.rule name) s = ruleFail (n.rule name) s.position s.tokenIndex s1) := by
   constructor <;> intro e1 <;> simp only [runGo, h, e1]
 
+/-- tokens of named rules are invisible to `Execute()`: inserting one anywhere leaves the PegText/Action stream alone -/
+theorem RG_named_token_invisible (n : Num) (hw : Num.WF n) (r b e : Nat) (hr : r < n.a0) (A B : List Runtime.Tok) :
+    n.kinds (A ++ [⟨r, b, e⟩] ++ B) = n.kinds (A ++ B) := by
+  have := hw.lt
+  have h1 : r ≠ n.text := by omega
+  have h2 : r ≠ n.a0 := by omega
+  have h3 : ¬ (n.text < r) := by omega
+  have : n.kinds [⟨r, b, e⟩] = [] := by simp [Num.kinds, Num.kind, h1, h2, h3]
+  rw [kinds_append, kinds_append, this, List.append_nil, kinds_append]
+
+/-- the grammar decompiled from jsonpath.peg.go is closed and its 27 table rules have distinct non-zero numbers -/
+theorem RG_go_closed : Closed Gen.goGrammar goNum := by
+  refine ⟨by decide +kernel, by decide +kernel, by decide +kernel⟩
+
+/-- THE PARSER OF jsonpath.peg.go, memoisation enabled (as `Parse` runs it): the decompiled rule functions on the
+regenerated runtime, from the `reset` state, compute `Peg.run Gen.goGrammar` -/
+theorem RG_go_parse_memo (input : Array Char) (hn : input.size + 1 < 4294967296) (f : Nat)
+    (hb : adds Gen.goGrammar f (.rule "expression") input 0 < 4294967296) (p' : Nat) (toks : List Peg.Tok)
+    (hr : run Gen.goGrammar f (.rule "expression") input 0 = .ok p' toks) :
+    ∃ s', parseGoRules f input false = (.ok, s') ∧ s'.position = p' ∧ stream goNum s' = toks :=
+  RG_memo_full_holds Gen.goGrammar goNum RG_goNum_wf RG_go_closed input hn f "expression" (by decide +kernel) hb p' toks hr
+
 /-
 Sensitivity (2026-09-27, scratch worktree of /repo, translate tool with `-repo <worktree> -out <scratch>`, the chain
 RuntimeModel → Gen/PegRuntimeGo → Props/PegRuntimeGen → RunGo → Lemmas/RunGoBase → this file compiled in a scratch root):
@@ -640,13 +383,23 @@ RuntimeModel → Gen/PegRuntimeGo → Props/PegRuntimeGen → RunGo → Lemmas/R
   Lemmas/RunGoBase imports Props/PegRuntimeGen as a whole: every edit L29 lists as breaking a PR_* theorem (T1, T2, T4–T9)
   stops this file from compiling as well. I found NO edit of the five closures that keeps all PR_* laws and breaks the
   composition with memo off: `runGo` touches the state only through those closures plus `buffer[position]`, `position++`
-  and the restore assignment, which belong to the rule-function template checked by `pegrules`. Not tried for lack of
-  time: T4 (reset keeps the table) against `RG_memo_full` — it matters only for a SECOND Parse on the same parser,
-  which `parseGo` (fresh `initRT`) does not model.
+  and the restore assignment, which belong to the rule-function template checked by `pegrules`. With memo ON the
+  proofs use in addition PR_memoize_true/false, PR_memoizedResult_true/false, PR_lookup_store_same/other: L29's T1
+  (position from the FIRST token), T5 (segment one short), T9 (tail kept) break `replay_true` / `ruleStep_on` through
+  them. Executed as well (scratch build of RunGo/RunGoNum against the edited Gen/PegRuntimeGo, `#eval`):
+  S2 = T1 memoizedResult: `position = m.Partial[0].end`             with the table in use the stream of `parseGoRules` differs from
+                                                                    `Peg.run` on `$[?(@.a)]`, `$[?(@.a>1)]`, `$[?(@.a>@.b)]`, … (a
+                                                                    multi-token success is replayed: jsonpathFilter under qParam);
+                                                                    memo off stays equal; `$.a[1]`, `$[1:2]`, `$[?(1<@.a)]` do not
+                                                                    show it (only one-token or failed entries are hit).
+  T4 (reset keeps the table) matters only for a SECOND Parse on the same parser, which `parseGo` (fresh `initRT`,
+  `reset_init` proves the table empty) does not model.
 -/
 
 -- OBLIGATIONS: RG_sim RG_run_ok RG_run_fail RG_rule_fail_restores RG_reset_good RG_parse_nomemo RG_goNum_wf
 --   RG_goNum_names RG_go_parse_nomemo RG_memo_store_replay_ok_partial RG_memo_store_replay_fail_partial RG_memo_miss
+--   RG_sim_memo RG_run_ok_memo RG_run_fail_memo RG_reset_good_memo RG_memo_full_holds RG_parse_memo_fail RG_go_closed
+--   RG_go_parse_memo RG_named_token_invisible
 
 end RunGoGen
 end JPV
